@@ -16,6 +16,12 @@
  * the host reaches them).  Jobs are submitted in batches of BATCH different
  * jobs and then flushed so that multi-lane schedulers hold different jobs.
  * ALWAYS sets both enc_keys and dec_keys (known library defects F2/F6).
+ *
+ * Exit status 1 if anything mismatched.  Result on the pinned tree (2026-10-02,
+ * 7 variants, 3.83M reference cases, 26.8M library jobs): everything equal
+ * except DOCSIS-BPI+CRC32 on the two AVX512 variants outside the canonical
+ * geometry (see the "Measured against the pinned library" note in ref_aead.h);
+ * set XCHECK_ALL=1 to print every mismatch instead of the first 4 per class.
  */
 #include <stdio.h>
 #include <stdlib.h>
